@@ -959,6 +959,17 @@ class Sym:
         return Sym(z3.If(s.t >= 0, s.t, -s.t), s.kind, s=_sf(abs, s.s), f=f_max(s.f, f_neg(s.f)))
 
     def __pow__(s, n):
+        # spellings a rewrite of the library might use for the operations it has today (x ** 0.5 for math.sqrt(x),
+        # x ** -1 for 1 / x, x ** 2.0 for x ** 2): mapped onto the modelled operations, exact over the reals
+        if type(n) is builtins.float and n == 0.5:
+            return SymMath().sqrt(s)
+        if type(n) is builtins.float and n == -0.5:
+            return 1.0 / SymMath().sqrt(s)
+        if type(n) is builtins.float and n.is_integer() and abs(n) <= 16:
+            r = s ** builtins.int(n)
+            return Sym(r.t, builtins.float, s=r.s, f=r.f) if isinstance(r, Sym) else r
+        if isinstance(n, builtins.int) and not isinstance(n, bool) and -16 <= n < 0:
+            return 1.0 / (s ** (-n))
         if isinstance(n, int) and not isinstance(n, bool) and n >= 0:
             if n >= 2 and ENG is not None and ENG.opts.get('pow_overflow') is not None and s.kind is builtins.float and _mentions_exp(s.t):
                 # float ** int raises OverflowError when the result leaves the double range (C08); the extra constraints
@@ -1367,6 +1378,19 @@ class SymMath:
 
     def fabs(self, x):
         return abs(x) if isinstance(x, Sym) else math.fabs(x)
+
+    def pow(self, x, n):
+        if isinstance(x, Sym) and not isinstance(n, Sym):
+            return x ** n
+        if isinstance(x, Sym) or isinstance(n, Sym):
+            raise TypeError('math.pow with a symbolic exponent is not modelled')
+        return math.pow(x, n)
+
+    def prod(self, it, start=1):
+        r = start
+        for x in it:
+            r = r * x
+        return r
 
     def copysign(self, a, b):
         if not (isinstance(a, Sym) or isinstance(b, Sym)):
